@@ -11,12 +11,14 @@
     uri_attrs_checked uri_attrs_scheme_mod_punct uri_attrs_safe_partial scheme_punct_witness
     css_comments_dotall css_expression_classes_cover css_decode_fixed css_no_expression
     css_urls_scheme_mod_punct css_urls_safe_partial css_scheme_punct_witness
+    attr_value_roundtrip uri_attrs_scheme_serialised
 -/
 import Genshi.Lemmas.SanNest
 import Genshi.Lemmas.SanTree
 import Genshi.Lemmas.SanForest
 import Genshi.Lemmas.SanUri
 import Genshi.Lemmas.SanCssUrl
+import Genshi.Lemmas.SanRoundtrip
 namespace Genshi.Props.C06
 open Genshi Genshi.San Genshi.San.Spec
 
@@ -378,5 +380,33 @@ example : sanitizeCss styleCfg ['t', 'o', 'p', ':', '\\', '5', 'c', ' ', '7', '5
     .ok [['t', 'o', 'p', ':', '\\', '\\', '7', '5', ' ', 'r', 'l', '(', 'x', ')']] ∧
     cssDecode ['t', 'o', 'p', ':', '\\', '\\', '7', '5', ' ', 'r', 'l', '(', 'x', ')'] =
       ['t', 'o', 'p', ':', '\\', '\\', '7', '5', ' ', 'r', 'l', '(', 'x', ')'] := by decide +kernel
+
+/-! ## After serialisation (attribute values)
+
+  The re-parse clause of the property is proved here for attribute VALUES only: the serializers
+  write `escape(value)` (C18: `escapeSpec true`, equal to the Python and C implementations), and
+  decoding the references of that text (model of `stripentities`: all numeric forms, the 252
+  names) gives the value back, so every guarantee about an emitted value holds for the value
+  read back.  The markup level (serializer output read by a parser) is NOT modelled here: it is
+  the subject of C08 and is only exercised by the oracle (html.parser on both serialisations). -/
+
+/-- Decoding the character references of an escaped attribute value gives the value back. -/
+theorem attr_value_roundtrip (q : Bool) (v : Str) :
+    stripentities (Genshi.Escape.escapeSpec q v) = .ok v := stripentities_escape q v
+
+/-- The URI guarantee (in its exception-free form, see `uri_attrs_scheme_mod_punct`) for the value as
+    written by a serializer and read back. -/
+theorem uri_attrs_scheme_serialised {cfg : Cfg} {s o : Stream} (h : sanitize cfg s = .ok o)
+    {tag : QName} {attrs : AttrList} (hm : Event.start tag attrs ∈ o)
+    {a : QName × Str} (ha : a ∈ attrs) (hu : a.1.text ∈ cfg.uriAttrs)
+    {back sch : Str} (hr : stripentities (Genshi.Escape.escapeSpec true a.2) = .ok back)
+    (hb : browserScheme back = some sch) : dropPunct sch ∈ cfg.safeSchemes := by
+  rw [attr_value_roundtrip] at hr
+  cases hr
+  exact uri_attrs_scheme_mod_punct h hm ha hu hb
+
+-- non-vacuity: a value with all four escaped characters
+example : stripentities (Genshi.Escape.escapeSpec true ['a', '&', '<', '"', '>', '&', 'l', 't', ';']) =
+    .ok ['a', '&', '<', '"', '>', '&', 'l', 't', ';'] := by decide +kernel
 
 end Genshi.Props.C06
